@@ -104,6 +104,13 @@ class MachineRun:
         self.cdir, self.grammars = vlib.build_corpus(fam, tier, seed, grammars)
         self.real = vlib.harness_outcomes(fam, tier, seed, self.cdir, indented=indented)
         self.tlc = vlib.tlc_corpus(fam, tier, seed, self.cdir, cfg=cfg)
+        self.tlc_lean = None
+        if os.path.exists(os.path.join(self.cdir, "corpus_lean.json")):
+            # the long inputs, model-checked without ghost variables (expected outcome and tree only)
+            self.tlc_lean = vlib.tlc_corpus(fam, tier, seed, self.cdir, cfg=cfg, corpus="corpus_lean.json")
+            if self.tlc_lean["rc"] != 0:
+                raise ToolError("the specification violates its own invariant on the long inputs of family %s:\n%s" % (
+                    fam, (self.tlc_lean["violation"] or "")[:2000]))
         self.secs = time.time() - t0
         self.cases = []
         self.rejected = {}
@@ -111,6 +118,7 @@ class MachineRun:
         self.by_g = {g.id: g for g in self.grammars}
         if self.real["build_ok"]:
             exp = {(r["g"], tuple(r["inp"])): r for r in self.tlc["replays"]}
+            lean = {(r["g"], tuple(r["inp"])): dict(r, lean=True) for r in (self.tlc_lean or {}).get("replays", [])}
             self.rejected = {gid: v for gid, v in self.real["front"].items() if v[0] != "code"}
             for a in self.real["outcomes"]:
                 if a.get("missing"):
@@ -123,7 +131,8 @@ class MachineRun:
                 if e is None:
                     g_ = self.by_g[a["g"]]
                     if [chr(c) for c in a["inp"]] in getattr(g_, "real_extra", []):
-                        self.real_only.append(Case(fam, g_, a["inp"], None, a))
+                        # beyond the exhaustive bound: expectation from the lean run (no attempt sets, no history)
+                        self.real_only.append(Case(fam, g_, a["inp"], lean.get(key), a))
                         continue
                     if self.tlc["rc"] == 0:
                         raise ToolError("no expected outcome for %s %r" % (key[0], key[1][:40]))
